@@ -4,6 +4,7 @@
 //! (replaying TLC-exported scenarios or seeded random histories) and records one ndjson
 //! event per specification action with arguments, reply and projected abstract state.
 mod drivers;
+mod tagproblem;
 mod util;
 
 fn main() {
@@ -11,6 +12,7 @@ fn main() {
     util::quiet_panics();
     let n = match args.driver.as_str() {
         "registry" => drivers::registry::main(&args),
+        "populations" => drivers::populations::main(&args),
         other => {
             eprintln!("unknown driver {other}");
             std::process::exit(2)
